@@ -245,6 +245,11 @@ SNextSim ==
       [] c = "deltook"  -> IF latest = 0 \/ DelEff = {} THEN SSave ELSE \E n \in DelEff : SDelTo(n)
       [] c = "import"   -> IF latest = 0 THEN SSave ELSE \E t \in Retained, f \in BOOLEAN : SImport(t, f)
       [] c = "savecs"   -> \E cs \in CSCands : SSaveCS(cs)
+      [] c = "savecsreplay" -> IF version # 0 /\ version < latest /\ ~Dirty /\ (version + 1) \in Retained
+                               THEN SSaveCS(Changes(TreeAt(version), saved[version + 1], version))
+                               ELSE IF ~Dirty /\ latest # 0 /\ version = latest /\ (latest - 1) \in Retained
+                               THEN SLoad(latest - 1)
+                               ELSE SSave
       [] c = "expopen"  -> IF Retained \ pins = {} THEN SRollback ELSE \E t \in Retained \ pins : SExpOpen(t)
       [] c = "expclose" -> IF pins = {} THEN SRollback ELSE \E t \in pins : SExpClose(t)
       [] OTHER          -> SSave
